@@ -54,6 +54,10 @@ Definition check03_lookup (rep : bool) (xa xb : list Q) (irdfi : nat) (ita itb :
   let '(r, (ta, tb)) := lookupTable Qops rep xa xb in
   (Nat.eqb r irdfi, eql ta ita, eql tb itb, r).
 
+(* _fillUnknownInterfacialComposition(p, start): exact *)
+Definition check03_fill (start : nat) (xa xb ia ib : list Q) :=
+  let r := fillUnknown Qops start xa xb in (eql (fst r) ia, eql (snd r) ib).
+
 (* ---- binary growth rate ------------------------------------------------------------------------------------------ *)
 (* eff = np.interp(s, ohm, effd) (effective diffusion enabled) or the constant 1 *)
 Definition effOf (enabled : bool) (ohm effd : list Q) (s : Q) : Q :=
@@ -61,7 +65,7 @@ Definition effOf (enabled : bool) (ohm effd : list Q) (s : Q) : Q :=
 (* a class whose supersaturation denominator is within tolerance of 0 relative to its two terms cannot be compared *)
 Definition growthTie (rt ratio : Q) (xa xb : list Q) : bool :=
   existsb (fun ab => let '(a, b) := ab in
-      isValid Qops a && negb (Qeq_bool (xDiffOf Qops ratio a b) 0) &&
+      negb (Qeq_bool (xDiffOf Qops ratio a b) 0) &&
       closeb rt (xDiffOf Qops ratio a b) 0 (Qred (qabs (ratio * b) + qabs a))) (combine xa xb).
 Definition check03_growth (rt : Q) (rep enabled : bool) (ohm effd : list Q) (rdfi : nat) (x ratio D epsMin : Q)
                           (kin bounds xa xb : list Q) (impl : list Q) :=
